@@ -96,6 +96,9 @@ def _arith(op, a, b, true_div=False):
         return UNDEF
     if a is None or b is None:
         return None
+    if op == "Add" and isinstance(a, str) and isinstance(b, str):
+        # `add` between two strings concatenates, left operand first (pinned by the library's own tests: 'donut' add 'tello')
+        return a + b
     if not (_num(a) and _num(b)):
         return UNDEF
     if op == "Add":
